@@ -42,6 +42,12 @@ func c19(r *core.Run) {
 		}
 		if cal := cc.StaticCallee(); cal != nil && cal.String() == "encoding/json.Marshal" {
 			marshal = c
+		} else if cal != nil && len(cal.Blocks) > 0 && cal.Pkg == fn.Pkg && cal.Signature.Results().Len() == 2 {
+			for _, hc := range core.Calls(cal) {
+				if hcal := hc.Common().StaticCallee(); hcal != nil && hcal.String() == "encoding/json.Marshal" && marshal == nil {
+					marshal = c // request marshalling extracted into a helper
+				}
+			}
 		}
 	}
 	for _, b := range fn.Blocks {
@@ -172,7 +178,7 @@ func c19(r *core.Run) {
 					succ = 1
 				}
 				blk := iff.Block().Succs[succ]
-				// on this edge: store InternalError(ev) to Response.Error, then return, no select
+				// on this edge: a Response whose Error is InternalError(ev) is returned, no select
 				stored, returned, selects := false, false, false
 				seen := map[*ssa.BasicBlock]bool{}
 				st := []*ssa.BasicBlock{blk}
@@ -185,14 +191,14 @@ func c19(r *core.Run) {
 					seen[x] = true
 					for _, in := range x.Instrs {
 						switch y := in.(type) {
-						case *ssa.Store:
-							if f, ok := core.FieldOf(y.Addr); ok && f.Name == "Error" && f.Struct == "resprot.Response" {
-								if c, ok := y.Val.(*ssa.Call); ok && c.Common().StaticCallee() != nil && c.Common().StaticCallee().Name() == "InternalError" && c.Common().Args[0] == ev {
-									stored = true
-								}
-							}
 						case *ssa.Return:
 							returned = true
+							if len(y.Results) > 0 && responseErrorIs(y.Results[0], func(v ssa.Value, rs *core.Resolver) bool {
+								c, ok := v.(*ssa.Call)
+								return ok && c.Common().StaticCallee() != nil && c.Common().StaticCallee().Name() == "InternalError" && rs.R(c.Common().Args[0]) == ev
+							}) {
+								stored = true
+							}
 						case *ssa.Select:
 							selects = true
 						}
@@ -214,22 +220,21 @@ func c19(r *core.Run) {
 	// ---- T1 --------------------------------------------------------------
 	// timer arm
 	timeoutOK := false
-	for _, b := range fn.Blocks {
-		for _, in := range b.Instrs {
-			if st, ok := in.(*ssa.Store); ok {
-				if f, ok := core.FieldOf(st.Addr); ok && f.Name == "Error" && f.Struct == "resprot.Response" {
-					if g, ok := loadedGlobal(st.Val); ok && g == "ErrTimeout" {
-						// followed by return in the same block and selected by the select's index
-						if _, ok := b.Instrs[len(b.Instrs)-1].(*ssa.Return); ok {
-							for _, ed := range dominatingEdges(st) {
-								if condOnSelect(ed.If.Cond, sel) {
-									timeoutOK = true
-								}
-							}
-						}
-					}
-				}
+	for _, ret := range core.Returns(fn) {
+		if len(ret.Results) == 0 {
+			continue
+		}
+		onTimer := false
+		for _, ed := range dominatingEdges(ret) {
+			if condOnSelect(ed.If.Cond, sel) {
+				onTimer = true
 			}
+		}
+		if onTimer && responseErrorIs(ret.Results[0], func(v ssa.Value, rs *core.Resolver) bool {
+			g, ok := loadedGlobal(v)
+			return ok && g == "ErrTimeout"
+		}) {
+			timeoutOK = true
 		}
 	}
 	r.Check(timeoutOK, "T1", fname, "timer-arm-returns-ErrTimeout", p.InstrPos(sel), "the deadline arm returns the timeout error", "the timer arm does not return res.ErrTimeout")
@@ -290,6 +295,9 @@ func c19(r *core.Run) {
 			d := describeCond(e)
 			if strings.Contains(d, "Msg.Data") || strings.Contains(d, "extract:call:strconv.Atoi") {
 				return true
+			}
+			if call, ok := c.(*ssa.Call); ok && involvesData(call, 0) {
+				return true // a classifier of the message bytes (e.g. isPreResponse(msg.Data))
 			}
 			if bo, ok := c.(*ssa.BinOp); ok {
 				// byte class tests on msg.Data[0]|32
@@ -360,11 +368,21 @@ func c19(r *core.Run) {
 	lits := []string{}
 	for _, tn := range []string{"Request", "queryRequest"} {
 		if t := methodNamed(p, "", tn, "Timeout"); t != nil {
-			for _, b := range t.Blocks {
-				for _, in := range b.Instrs {
-					if bo, ok := in.(*ssa.BinOp); ok && bo.Op == token.ADD {
-						if s, ok := core.ConstString(bo.X); ok && strings.HasSuffix(s, `:"`) {
-							lits = append(lits, strings.TrimSuffix(s, `:"`))
+			for _, c := range core.Calls(t) {
+				cal := c.Common().StaticCallee()
+				if cal == nil || len(c.Common().Args) < 3 {
+					continue
+				}
+				if f, ok := core.LoadedField(c.Common().Args[1]); !ok || f.Name != "Reply" {
+					continue
+				}
+				rs := core.NewResolver()
+				pay := rs.R(c.Common().Args[2])
+				if cv, ok := pay.(*ssa.Convert); ok {
+					pts := concatPartsWith(cv.X, rs)
+					if len(pts) > 0 {
+						if s0, ok := core.ConstString(pts[0]); ok && strings.HasSuffix(s0, `:"`) {
+							lits = append(lits, strings.TrimSuffix(s0, `:"`))
 						}
 					}
 				}
@@ -456,4 +474,78 @@ func chanFromTimerPhi(ch ssa.Value, nt ssa.Value, d int) bool {
 		}
 	}
 	return ch == nt
+}
+
+// responseErrorIs: the returned Response value (a load of a local struct -
+// possibly through the result cell go/ssa spills returns into when the
+// function defers - or the result of a helper building one) has its Error
+// field stored from a value accepted by pred.
+func responseErrorIs(v ssa.Value, pred func(ssa.Value, *core.Resolver) bool) bool {
+	leaves := valueLeaves(v, nil, 0)
+	if len(leaves) == 0 {
+		return false
+	}
+	for _, lf := range leaves {
+		if !structErrorIs(lf.V, lf.Rs, pred, 0) {
+			return false
+		}
+	}
+	return true
+}
+
+func structErrorIs(v ssa.Value, rs *core.Resolver, pred func(ssa.Value, *core.Resolver) bool, depth int) bool {
+	if depth > 4 {
+		return false
+	}
+	u, ok := v.(*ssa.UnOp)
+	if !ok {
+		// a helper call building the response
+		if c, ok := v.(*ssa.Call); ok {
+			for _, lf := range valueLeaves(c, rs, 0) {
+				if lf.V == v {
+					return false
+				}
+				if !structErrorIs(lf.V, lf.Rs, pred, depth+1) {
+					return false
+				}
+			}
+			return true
+		}
+		return false
+	}
+	al, ok := u.X.(*ssa.Alloc)
+	if !ok || al.Referrers() == nil {
+		return false
+	}
+	// whole-value store into the cell just before the load (defer spill / assignment)
+	blk := u.Block()
+	idx := -1
+	for i, in := range blk.Instrs {
+		if in == ssa.Instruction(u) {
+			idx = i
+		}
+	}
+	for i := idx - 1; i >= 0; i-- {
+		if st, ok := blk.Instrs[i].(*ssa.Store); ok && st.Addr == ssa.Value(al) {
+			return structErrorIs(st.Val, rs, pred, depth+1)
+		}
+	}
+	found := false
+	for _, rf := range *al.Referrers() {
+		fa, ok := rf.(*ssa.FieldAddr)
+		if !ok || fa.Referrers() == nil {
+			continue
+		}
+		if f, ok := core.FieldOf(fa); !ok || f.Name != "Error" {
+			continue
+		}
+		for _, r2 := range *fa.Referrers() {
+			if st, ok := r2.(*ssa.Store); ok && st.Addr == ssa.Value(fa) && pred(st.Val, rs) {
+				if st.Block() == u.Block() || core.Reaches(st, u) {
+					found = true
+				}
+			}
+		}
+	}
+	return found
 }
